@@ -79,7 +79,8 @@ pub fn profile_for(prop: &str, variant: u64, thorough: bool) -> Profile {
             }
         }
         "C02" => {
-            p.kinds = [4, 3, 1, 4, 12, 2, 1, 3, 0];
+            p.kinds = [4, 3, 1, 4, 12, 2, 1, 3, if variant % 4 == 1 { 5 } else { 0 }];
+            p.p_child_ret = if variant % 4 == 1 { 30 } else { 0 };
             p.max_sources = if thorough { 96 } else { 24 };
             p.steps = if thorough { (20, 140) } else { (15, 60) };
             p.outside = [18, 2, 3, 3, 3, 36, 25, 1, 0, 0, 0, 1, 0];
@@ -121,6 +122,8 @@ pub fn profile_for(prop: &str, variant: u64, thorough: bool) -> Profile {
             p.p_cb_ops = 45;
             p.rets = [2, 6, 1, 0];
             p.update_disabled = true;
+            p.kinds = [4, 3, 1, 7, 6, 2, 1, 2, 0];
+            p.timer_dls = vec![Dl::Past, Dl::Now, Dl::Ms(1), Dl::Ms(3), Dl::Ms(8), Dl::Far, Dl::Unrep, Dl::Unrep];
         }
         "C08" => {
             p.kinds = [4, 3, 1, 4, 5, 3, 2, 2, 0];
